@@ -57,6 +57,10 @@ pub fn shared_modules() -> std::collections::BTreeMap<String, String> {
         "/victims/ok.ts".to_string(),
         "console.log(\"run vok\"); export const dv: number = 7;".to_string(),
     );
+    // what the host would supply for the paths victims run under, if somebody imported them
+    m.insert("/victims/v.ts".to_string(), "console.log(\"run fresh v\"); export const dv: number = 9;".to_string());
+    m.insert("/victims/u.ts".to_string(), "console.log(\"run fresh u\"); export const dv: number = 8;".to_string());
+    m.insert("/victims/c.ts".to_string(), "console.log(\"run fresh c\"); export const dv: number = 7;".to_string());
     m.insert(
         "/shared/bad.ts".to_string(),
         "console.log(\"run bad\"); export const a: number = 1; function boom(): any { { let inner: any = 1; throw new Error(\"dep died \" + inner); } } boom(); export const b: number = 2;".to_string(),
@@ -72,6 +76,14 @@ import { dv2 } from "/shared/ok2.ts";
 const IMPORT_OBSERVER_REL: &str = r#"import { rv } from "./rel_dep.ts";
 export const seen: number = rv;
 [typeof vn0, typeof inner, rv].join(",")
+"#;
+
+/// Imports the paths the victims ran under. Only compared when no victim completed under its path
+/// (a module that completed stays loaded: a deliberate effect on the module registry).
+const IMPORT_OBSERVER_DEAD: &str = r#"import * as dv from "/victims/v.ts";
+import * as du from "/victims/u.ts";
+import * as dc from "/victims/c.ts";
+[Object.keys(dv).join("+"), Object.keys(du).join("+"), Object.keys(dc).join("+"), dv.dv, du.dv, dc.dv].join(",")
 "#;
 
 const IMPORT_OBSERVER_BAD: &str = r#"import { a, b } from "/shared/bad.ts";
@@ -113,6 +125,9 @@ pub struct Scn {
     /// the first thing run after the victims is Interpreter::eval_bytecode (third entry point)
     #[serde(default)]
     pub probe_eval_bytecode_first: bool,
+    /// the battery is started with eval() instead of prepare()
+    #[serde(default)]
+    pub battery_eval: bool,
 }
 
 pub struct C11;
@@ -237,6 +252,7 @@ struct ObsResult {
     import_ok: Outcome,
     import_bad: Outcome,
     import_rel: Outcome,
+    import_dead: Outcome,
     depth_before: usize,
     depth_after: usize,
     quiescence: String,
@@ -296,7 +312,18 @@ fn observers(h: &mut Host, scn: &Scn, late: &[u64]) -> ObsResult {
         bspec.stale_answer_ids = late.to_vec();
         bspec.stale_answer_ids.push(9_000_001);
     }
+    if scn.battery_eval {
+        bspec.driver = Driver::Eval;
+    }
     let battery = run_to_end(h, bspec);
+    // right after the (suspending, path-less) battery: import the paths the victims ran under
+    let import_dead = {
+        let mut s = battery_spec(scn.fuel);
+        s.source = IMPORT_OBSERVER_DEAD.to_string();
+        s.modules = shared_modules();
+        s.path = Some("/obs/imp_dead.ts".to_string());
+        run_to_end(h, s)
+    };
     let mut ospec = scn.observer.spec(Driver::Step, GcSched::off(), Tape::from_vec(vec![]), scn.fuel);
     ospec.path = Some("/obs/observer.ts".into());
     let observer = run_to_end(h, ospec);
@@ -315,6 +342,7 @@ fn observers(h: &mut Host, scn: &Scn, late: &[u64]) -> ObsResult {
         import_ok: import_ok.unwrap_or_default(),
         import_bad: import_bad.unwrap_or_default(),
         import_rel: import_rel.unwrap_or_default(),
+        import_dead,
         depth_before,
         depth_after,
         quiescence: format!("{:?}", q),
@@ -495,6 +523,7 @@ impl Check for C11 {
             import_observers_eval: rng.chance(0.3),
             late_answers: rng.chance(0.5),
             probe_eval_bytecode_first: rng.chance(0.4),
+            battery_eval: rng.chance(0.4),
         }
     }
 
@@ -710,6 +739,15 @@ impl Check for C11 {
                     "path-less observer importing ./rel_dep.ts",
                     format!("{} {:?} {:?} {:?}", fresh.import_rel.result, fresh.import_rel.console, fresh.import_rel.traffic, fresh.import_rel.exports),
                     format!("{} {:?} {:?} {:?}", reused.import_rel.result, reused.import_rel.console, reused.import_rel.traffic, reused.import_rel.exports),
+                ));
+            } else if !hows.iter().zip(scn.victims.iter()).any(|(how, v)| v.module_path.is_some() && how.starts_with("ended:complete"))
+                && (fresh.import_dead.result != reused.import_dead.result || fresh.import_dead.console != reused.import_dead.console || fresh.import_dead.traffic != reused.import_dead.traffic)
+            {
+                rep.fail(mk(
+                    "observer_importing_the_path_of_a_dead_run_differs_from_fresh",
+                    "observer importing the module paths the dead runs had",
+                    format!("{} {:?} {:?}", fresh.import_dead.result, fresh.import_dead.console, fresh.import_dead.traffic),
+                    format!("{} {:?} {:?}", reused.import_dead.result, reused.import_dead.console, reused.import_dead.traffic),
                 ));
             } else if fresh.battery.exports != reused.battery.exports || fresh.import_ok.exports != reused.import_ok.exports {
                 rep.fail(mk(
